@@ -49,7 +49,7 @@ func treeWidth(n uint32, h uint) uint32 { return (n + (1 << h) - 1) >> h }
 // partial merkle tree and logs the double-SHA256 of every pair it meets.
 func planPairs(n uint32, hashes []*chainhash.Hash, bits []byte) []interface{} {
 	env := []interface{}{}
-	if n == 0 || n > 1<<22 {
+	if n == 0 || n > 1<<27 {
 		return env
 	}
 	height := uint(0)
@@ -98,6 +98,13 @@ func opExtractMsg(_ *HState, a Event) Event {
 	hashes := hashList(gList(a, "hashes"))
 	flags := gBytes(a, "flags")
 	msg := wire.MsgMerkleBlock{Transactions: ntx, Hashes: hashes, Flags: flags}
+	// the transaction limit is an exported variable (it follows the block size): a call may run under a raised limit
+	// (such calls take no part in the concurrent replay)
+	if lim := gInt(a, "limit"); lim > 0 {
+		old := merkleblock.MaxTxnCount
+		merkleblock.MaxTxnCount = uint32(lim)
+		defer func() { merkleblock.MaxTxnCount = old }()
+	}
 	e := with(a, "maxtxn", int(merkleblock.MaxTxnCount), "ok", false, "root", []int{}, "matches", [][]int{}, "items", []int{}, "bad", false)
 	p, pmsg, hung := guardT(20*time.Second, func() {
 		pb := merkleblock.NewMerkleBlockFromMsg(msg)
@@ -420,6 +427,7 @@ func runC12(c *Ctx) {
 	r := c.Rng
 	atoms := [][]byte{nil, randBytes(r, 32), randBytes(r, 32), randBytes(r, 32)}
 	nExtract := 0
+	limited := 0 // > 0: the next extractions run under this transaction limit
 	extract := func(ntx uint32, hs [][]byte, flags []byte) Event {
 		hl := [][]int{}
 		for _, h := range hs {
@@ -430,6 +438,9 @@ func runC12(c *Ctx) {
 		op := "ExtractMsg"
 		if nExtract%3 == 0 {
 			op = "ExtractAgain"
+		}
+		if limited > 0 {
+			return c.Call(Event{"op": op, "ntx": w32(ntx), "hashes": hl, "flags": ints(flags), "limit": limited})
 		}
 		return c.Call(Event{"op": op, "ntx": w32(ntx), "hashes": hl, "flags": ints(flags)})
 	}
@@ -571,6 +582,15 @@ func runC12(c *Ctx) {
 	}
 	for _, n := range []uint32{max - 1, max, max + 1, max + 2, max + max/3, 1 << 22, 1<<22 - 1, 1<<22 + 1, 1 << 23, 1 << 26} {
 		pathProof(n)
+	}
+	// the same under a raised limit (bigger blocks): counts around 2^20 .. 2^26 are then legal and must be traversed at
+	// their real height
+	for _, n := range []uint32{1 << 20, 1<<20 + 1, 1<<21 - 1, 1 << 21, 1<<22 + 1, 1 << 26} {
+		limited = int(n) + 5
+		pathProof(n)
+		limited = int(n) - 1
+		pathProof(n)
+		limited = 0
 	}
 	for _, n := range []uint32{math.MaxUint32, math.MaxUint32 - 1, math.MaxUint32 - 2, 1<<31 + 1, 1<<32 - 1<<10} {
 		for _, fl := range []byte{0x07, 0x03, 0x05, 0x01} {
